@@ -659,3 +659,101 @@ Proof.
   intros H. apply reachable_inv in H. destruct H as [Hi Hname]. subst f.
   eapply N.le_trans; [|apply envelope_fits]. unfold context_info. apply total_regs_le. exact Hi.
 Qed.
+
+(* ---------- the envelopes spelled out per format ---------- *)
+(* length of an _initialize region of format f (generated) *)
+Definition init_len (f : fmt_id) (n : rname) : N := cap_of (init_env f) n.
+
+Lemma region_caps_vhdx_l i :
+  reachable F_vhdx i ->
+  NoDup (map fst (regions_of i)) /\
+  forall n r, In (n, r) (regions_of i) ->
+    flen (r_data r) <= r_len r /\
+    match n with
+    | R_ident => r_len r <= init_len F_vhdx R_ident
+    | R_header => r_len r <= init_len F_vhdx R_header
+    | R_metadata => r_len r <= VHDX_META_A * VHDX_META_B
+    | R_vds => r_len r <= VHDX_VHDX_METADATA_TABLE_MAX_SIZE
+    | _ => False
+    end.
+Proof.
+  intros H. apply region_caps_reachable in H. destruct H as [Hn H]. split; [exact Hn|].
+  intros n r Hin. destruct (H n r Hin) as (H1 & H2 & H3). split; [exact H2|].
+  destruct n; try exact H3;
+    try (exfalso; vm_compute in H1; repeat (destruct H1 as [H1|H1]; [discriminate H1|]); exact H1).
+Qed.
+
+Lemma region_caps_vmdk_l i :
+  reachable F_vmdk i ->
+  NoDup (map fst (regions_of i)) /\
+  forall n r, In (n, r) (regions_of i) ->
+    flen (r_data r) <= r_len r /\
+    match n with
+    | R_header => r_len r <= init_len F_vmdk R_header
+    | R_descriptor => r_len r <= N.max (init_len F_vmdk R_descriptor) VMDK_DESC_MAX_SIZE
+    | R_footer => r_len r <= VMDK_FOOTER_LEN
+    | _ => False
+    end.
+Proof.
+  intros H. apply region_caps_reachable in H. destruct H as [Hn H]. split; [exact Hn|].
+  intros n r Hin. destruct (H n r Hin) as (H1 & H2 & H3). split; [exact H2|].
+  destruct n; try exact H3;
+    try (exfalso; vm_compute in H1; repeat (destruct H1 as [H1|H1]; [discriminate H1|]); exact H1).
+Qed.
+
+Definition static_fmt (f : fmt_id) : bool := match f with F_vhdx | F_vmdk => false | _ => true end.
+Lemma region_caps_static_l f i :
+  static_fmt f = true -> reachable f i ->
+  NoDup (map fst (regions_of i)) /\
+  forall n r, In (n, r) (regions_of i) ->
+    In n (map fst (init_regions f)) /\ flen (r_data r) <= r_len r /\ r_len r <= init_len f n.
+Proof.
+  intros Hs H. apply region_caps_reachable in H. destruct H as [Hn H]. split; [exact Hn|].
+  intros n r Hin. destruct (H n r Hin) as (H1 & H2 & H3).
+  assert (He : envelope f = init_env f) by (destruct f; try reflexivity; discriminate Hs).
+  rewrite He in *. split; [|split; [exact H2|exact H3]].
+  assert (Hnames : forall l x, In x (map fst (fold_right (fun p e => env_add (fst p) (rs_len (snd p)) e) [] l)) -> In x (map fst l)).
+  { clear. induction l as [|[k sp] t IH]; intros x; cbn [fold_right map fst]; [tauto|].
+    set (e := fold_right _ _ t) in *. clearbody e. intros Hx.
+    assert (Ha : forall e0, In x (map fst (env_add k (rs_len sp) e0)) -> k = x \/ In x (map fst e0)).
+    { clear. induction e0 as [|[k0 c0] t0 IH0]; cbn [env_add map fst In]; [tauto|].
+      destruct (rname_beq k0 k); cbn [map fst In]; tauto. }
+    apply Ha in Hx. destruct Hx as [<-|Hx]; [left; reflexivity|right; auto]. }
+  unfold init_env in H1. apply Hnames in H1. rewrite map_rev in H1. apply in_rev in H1. exact H1.
+Qed.
+
+(* ---------- the statements on chunk lists ---------- *)
+Lemma memory_bound_list f cs : total (context_info (fst (eat_list (init f) cs))) <= C05_bound f.
+Proof. apply memory_bound_reachable. apply state_after_reachable. Qed.
+Lemma memory_bound_prefix f cs pre :
+  (exists rest, cs = pre ++ rest) -> total (context_info (fst (eat_list (init f) pre))) <= C05_bound f.
+Proof. intros _. apply memory_bound_list. Qed.
+Lemma memory_bound_finish f cs : total (context_info (finish (fst (eat_list (init f) cs)))) <= C05_bound f.
+Proof. apply memory_bound_reachable. constructor. apply state_after_reachable. Qed.
+Lemma memory_bound_run f cs : total (context_info (fst (run f cs))) <= C05_bound f.
+Proof.
+  unfold run. pose proof (memory_bound_finish f cs) as H.
+  destruct (eat_list (init f) cs) as [i x]. exact H.
+Qed.
+
+(* ---------- hostile streams: the announced sizes are maximal, the retained bytes are not ---------- *)
+Lemma hostile_vmdk_attains :
+  let s := hostile_vmdk 1100000 in
+  let i := state_after F_vmdk [s] in
+  sint sf_vmdk_sparse 6 (ntake VMDK_MIN_SPARSE_HEADER s) = 2 ^ 64 - 1 /\
+  1048576 < total (context_info i) /\ total (context_info i) <= C05_bound F_vmdk.
+Proof. vm_compute. split; [reflexivity|split; [reflexivity|intros H; discriminate H]]. Qed.
+
+Lemma hostile_vhdx_attains :
+  let i := state_after F_vhdx [hostile_vhdx] in
+  (exists r, rget R_vds (regions_of i) = Some r /\ r_len r = VHDX_VHDX_METADATA_TABLE_MAX_SIZE) /\
+  196608 < total (context_info i) /\ total (context_info i) <= C05_bound F_vhdx.
+Proof.
+  assert (H : let i := state_after F_vhdx [hostile_vhdx] in
+              (option_map r_len (rget R_vds (regions_of i)) = Some VHDX_VHDX_METADATA_TABLE_MAX_SIZE) /\
+              (196608 <? total (context_info i)) = true /\ (total (context_info i) <=? C05_bound F_vhdx) = true).
+  { vm_compute. auto. }
+  cbv zeta in *. destruct H as (H1 & H2 & H3). split; [|split; lia].
+  destruct (rget R_vds _) as [r|]; [|discriminate H1]. exists r. split; [reflexivity|].
+  cbn [option_map] in H1. congruence.
+Qed.
